@@ -8,7 +8,7 @@
    Model: Lexer.v (lex_all drives Lexer.Next until TokenError).  A written file is
    render items = concat (map render_item items) (Writer.v); wf_file / item_events are in LexSpec.v.
    "never crashes": the result is Ok (or Err EBadMagic from NewLexer), never Panic / Exit / OutOfFuel. *)
-From Mcap Require ConstsTie LayoutTie. (* regenerated ties to /repo's source that this property's model relies on *)
+From Mcap Require ConstsTie LayoutTie DecisionTieL. (* regenerated ties to /repo's source that this property's model relies on *)
 From Coq Require Import List NArith ZArith Bool.
 From Coq.Strings Require Import Byte.
 From Mcap Require Import Bytes GoSem Crc32 Records RecordsFacts Writer Lexer LexSpec LexerFactsB.
